@@ -63,7 +63,7 @@ def interfere():
     WelfordTracker().update(1.0)
 
 
-def sample(make, k, snaps, runs, hrnd, interference=False):
+def sample(make, k, snaps, runs, hrnd, interference=False, with_y=False):
     incl = {n: collections.Counter() for n in snaps}
     subsets = {n: collections.Counter() for n in snaps}
     pairs = {n: collections.Counter() for n in snaps}
@@ -82,11 +82,13 @@ def sample(make, k, snaps, runs, hrnd, interference=False):
             obs = {"t": i}
             if first is not None:
                 first.update(obs)
-            if upd is not None:
+            if with_y and i % 3 != 1:
+                (upd or st.update)(obs, ("label", i))
+            elif upd is not None:
                 upd(obs)
             else:
                 st.update(obs)
-            if _ % 7 == 5 and i % 5 == 4:
+            if _ % 7 == 5 and i % 5 == 4 and not with_y:
                 # the caller reorders the list it was handed (get_data() returns the live list; which slot holds which observation
                 # carries no meaning for a uniform reservoir)
                 st.get_data()[0].sort(key=lambda o_: o_["t"])
@@ -150,7 +152,9 @@ def main(run):
         import numpy as np
         kt = [int, np.int64, int, np.int32, int, np.intp][j % 6]          # capacities given as NumPy integers in some configurations
         run.see("capacity-type", kt.__name__)
-        incl, subsets, pairs, buck = sample(lambda: UniformReservoirStorage(size=kt(k), store_targets=False), k, snaps, runs, hrnd, interference)
+        with_y = j % 3 == 2          # some configurations store targets; every third observation arrives WITHOUT a label (y=None, the default)
+        run.see("store-targets", with_y)
+        incl, subsets, pairs, buck = sample(lambda: UniformReservoirStorage(size=kt(k), store_targets=with_y), k, snaps, runs, hrnd, interference, with_y)
         run.count("configs-with-interleaved-library-objects", int(interference))
         run.ok(runs, kind=f"k={k}")
         fails = []
